@@ -13,7 +13,7 @@ impl ReactComponent for Val {}
 // ---------------------------------------------------------------------------------------------------------------
 //# id=K.accessors.react props=C14 strength=complete shape="loop-free; old/new values symbolic over u32" tier=quick fns=React::get,React::get_mut,React::get_noreact,React::set_if_neq,React::take
 #[kani::proof] #[kani::unwind(6)]
-fn k_accessors_react() {
+fn k_accessors_reactcomp() {
     let world = World::new();
     let mut queue = CommandQueue::default();
     let old: u32 = kani::any();
